@@ -5,7 +5,7 @@ import vlib
 from vlib import Broken, tlc, tlc_must_pass
 
 SPECDIR = os.path.join(vlib.SPECS, "ctrl")
-C12_EVENTS = ("fpid", "npid", "fpidk")
+C12_EVENTS = ("fpid", "npid", "fpidk", "npidx")
 
 
 def run_fuzzy(ck, sc, tier):
@@ -52,6 +52,10 @@ def part_c12(ck, sc, tier):
     n = 0
     for f, idx, ev in bad:
         if ev.get("f") in C12_EVENTS:
+            if ev["f"] == "npidx":
+                ck.violation("trace:npidx:inc", {"what": "single-neuron controller (learning rates zero, exact data): output is not clamp(u(k-1) + K (wp xp + wi xi + wd xd) / (|wp|+|wi|+|wd|)), or the weights moved", "event": ev})
+                n += 1
+                continue
             ck.violation("trace:%s:opr%s:mode%s" % (ev["f"], ev.get("opr", "-"), ev.get("mode")),
                          {"what": "TLC rejected the fuzzy / neuro controller run: output limits, finiteness, scheduled gains or reset behaviour", "event": ev})
             n += 1
